@@ -4,26 +4,26 @@ import json, subprocess
 
 CLAIMED = {
  "C13": dict(engine="envsim", design="4.1",
-   technique="deterministic simulation: seeded multi-client histories on one shared BDDEnv (raw API, BDDSet, formula clients; worlds usize / NamedSymbol / a user symbol type with scripted panics) with handle-drop, alias, re-entrancy, cancellation, mid-operation unwinding, table-growth, sparse-id, hash-collision, outside-operand (dropped at once: address reuse), clone-object (operation in a Clone of the environment), address-alias (the simulator's allocator places new nodes 4 GiB apart), call-count (2^16 / in the thorough tier 2^32 cheap calls between two related quantifications) and allocator faults; invariants I1-I5 after every step, each operation re-run in a fresh environment",
+   technique="deterministic simulation: seeded multi-client histories on one shared BDDEnv (raw API, BDDSet, formula clients; worlds usize / NamedSymbol / a user symbol type with scripted panics) with handle-drop, alias, re-entrancy, cancellation, mid-operation unwinding, table-growth, sparse-id, hash-collision, outside-operand (dropped at once: address reuse), clone-object (operation in a Clone of the environment), address-alias (the simulator's allocator places new nodes 4 GiB apart), call-count (2^16 / in the thorough tier 2^32 cheap calls between two related quantifications), env-default (BDDEnv::default()), deep-diagram (chains over up to 300 variables) and allocator faults; invariants I1-I5 after every step, each operation re-run in a fresh environment",
    text="Seeded exploration of operation histories (interleaved raw-API, BDDSet and formula clients on one environment, with cancelled and re-entrant fp transformers, foreign-node lookups, handle drops and allocator churn). After every step all retained handles are re-walked, every reachable node is compared by address with the environment table, and the step is repeated in a brand-new environment and compared structurally. Exploration level: samples histories, does not enumerate them.",
    note="Trusted: the truth-table walker and the plan executor of /verif/sim. Bounds: <= 6 variables (1 run in 8: 7-10 variables, judged structurally), <= 60 steps, <= 4 clients, counting lists <= 5. In a quarter of the runs operands may live outside the environment (for operations that never look an operand up); from the first such step on the reachability part of I4 and the duplicates / node_list comparisons are not judged in that run. Only unwindings a caller can cause through the public API are injected."),
  "C02": dict(engine="envsim", design="4.3",
-   technique="deterministic simulation: the same seeded histories as construction routes (incl. operands from a second environment or from no environment, retries after injected mid-operation panics, nodes placed 4 GiB apart, counting lists of up to 22 operands); every handed-out diagram compared with an independently built canonical diagram of its own function (K1-K3) and of the function a lock-step truth-table model expects (K4), across environments",
+   technique="deterministic simulation: the same seeded histories as construction routes (incl. operands from a second environment or from no environment, retries after injected mid-operation panics, nodes placed 4 GiB apart, counting lists of up to 22 operands, chains over up to 300 variables whose near-twins must not hash alike (K5)); every handed-out diagram compared with an independently built canonical diagram of its own function (K1-K3) and of the function a lock-step truth-table model expects (K4), across environments",
    text="Every diagram produced along seeded histories (shared environment, per-step fresh environments, From-converted diagrams) is checked to be ordered and reduced, to be `==` (and hash-equal) to a reduced ordered diagram built from its truth table with plain BDD::Choice values and no environment, and all pairs of live handles satisfy `==` iff same function. Exploration level; the functions dimension is sampled by what the histories build (reported as distinct states).",
    note="Trusted: canon64 (Shannon expansion on bitsets), the walker and the reference semantics of the operations on 64-bit truth tables (K4; model / retain / cancelled fp have no single expected function and are judged by K1-K3 only). One fixed variable order per world. <= 6 variables."),
  "C19": dict(engine="envsim", design="4.2",
-   technique="deterministic simulation: seeded BDDSet client histories (incl. self-aliased operands, early drops, BDDSet::clone with diverging use, queries while the caller holds a shared borrow of the set's cell, universes up to 64 bits and, with a caller-defined u128 element type, up to 96 bits, marathon runs beyond 2^20 cached operations) interleaved with raw-API traffic on a shared environment, lock-step against a BTreeSet reference model",
+   technique="deterministic simulation: seeded BDDSet client histories (incl. self-aliased operands, early drops, BDDSet::clone with diverging use, queries while the caller holds a shared borrow of the set's cell, universes up to 64 bits and, with a caller-defined u128 element type, up to 96 bits, sets of two different widths in one environment, marathon runs beyond 2^20 cached operations) interleaved with raw-API traffic on a shared environment, lock-step against a BTreeSet reference model",
    text="Seeded histories of insert/union/intersect/complement/empty/universe/contains on up to four sets sharing one environment with raw-API clients; after every step membership of every b-bit integer is read off the set's diagram and compared with a BTreeSet that underwent the same operations; queries must answer like the model and leave every set unchanged; self-aliased operands must not panic. Exploration level.",
    note="Trusted: the BTreeSet model and the membership walker (does not call contains). b <= 4 bits mostly, up to 8 bits in 1 run of 8, 16..64 bits (boundary elements, finite / co-finite model) in some; <= 4 live sets, <= 60 steps; a third of the runs are driven by set clients alone and hold no handle to the leaves."),
 }
 
 CLAIMED["C12"] = dict(engine="iosim", design="4.5",
-   technique="deterministic simulation with fault injection on the input/output stream seams: stored-input corruption (bit flips, drops, splices, bad UTF-8, extreme numerals) delivered through chunking/EINTR/hard-error read plans, DOT output into short-write/error write plans; plus syntax definitions installed through ParsedFormula::define for referenced names and a second evaluation; oracle: no panic, injected errors surface as Err",
+   technique="deterministic simulation with fault injection on the input/output stream seams: stored-input corruption (bit flips, drops, splices, bad UTF-8, extreme numerals) delivered through chunking/EINTR/hard-error read plans, DOT output into short-write/error write plans; plus syntax definitions installed through ParsedFormula::define for referenced names and a second evaluation, -g with a stand-in gnuplot (missing / reading / exiting at once / failing), output paths without a file name, one identifier of up to 64 KiB; oracle: no panic, injected errors surface as Err",
    text="Seeded stored inputs (generated formulas, repository texts, token soups, random bytes, handcrafted edge texts) with 0-4 storage faults and optional corrupted ordering files are delivered through fault-injecting readers to tokenize / ParsedFormula::new; then eval under a tick budget, model, retain, the CLI's table walk and both DOT exporters (into a fault-injecting writer) run under catch_unwind. Any panic other than the budget marker is a violation, reported with location; injected hard I/O errors must come back as Err. Exploration level.",
    note="Build: optimised with overflow-checks (= the dev profile's arithmetic, in which the pinned test suite runs). Inputs above the conservative nesting bound 200 or exhausting the tick budget are executed but unjudged, as are panics during evaluation of inputs whose fixed-point iteration provably cycles (the model iterates the parsed tree itself). ReferenceContents::BDD definitions are not installed (the source documents them as unsupported inside fixed points; the property quantifies over byte strings and options). Output-side failure of stdout is outside the property.")
 
 CLAIMED["C18"] = dict(engine="rgsim", design="4.8",
-   technique="deterministic simulation of the real random_graph_gen process with its RNG behind a seeded seam (guarded hook): seeded requests incl. infeasible ones, replayed (also started in a removed working directory and with --convert reading through a pipe) and re-run with --dot toggled; --convert (incl. lists of hundreds of edges with reversed copies) / --colors judged by brute force",
+   technique="deterministic simulation of the real random_graph_gen process with its RNG behind a seeded seam (guarded hook): seeded requests incl. infeasible ones, replayed (also started in a removed working directory, with --convert reading through a pipe, and with -o /dev/full) and re-run with --dot toggled; --convert (incl. lists of hundreds of edges with reversed copies) / --colors judged by brute force",
    text="The real binary is spawned per run with a seeded RNG stream replacing thread_rng (guarded hook), over seeded requests (V, E, -u, --complete, --dot, -o; half feasible-interior, a quarter at the maximum, a quarter infeasible or incomplete) and --convert/--colors inputs. Oracles: exactly E distinct loop-free edges over v0..v(V-1), no pair in both orientations under -u, refusal with message and no output for infeasible requests, byte-identical replay, --dot equals the plain edge list, --convert equals the merged input list, clique-cover iff k-colourable by brute force. Exploration level over requests x RNG streams.",
    note="Trusted: the edge-list parsers and brute-force colouring of /verif/sim. --colors is judged on loop-free inputs with <= 5 vertices and k <= 3. Variety of the generator's output is measured (distinct edge sets) but not judged.")
 
